@@ -65,6 +65,7 @@ def make_class(base, nvars, check, endo, extra=()):
 
         def solve_t_before(self, t, *, errors='raise', catch_first_error=True, iteration=None, **kwargs):
             self.__dict__['_evlog'].append(['before', int(t), int(iteration)])
+            self.__dict__.setdefault('_evpos', []).append(['before', int(self._pos(t)), int(iteration)])
             sc = self.__dict__['_scripts'].get(str(self._pos(t)))
             try:
                 if sc:
@@ -75,6 +76,7 @@ def make_class(base, nvars, check, endo, extra=()):
 
         def _evaluate(self, t, *, errors='raise', catch_first_error=True, iteration=None, **kwargs):
             self.__dict__['_evlog'].append(['pass', int(t), int(iteration)])
+            self.__dict__.setdefault('_evpos', []).append(['pass', int(self._pos(t)), int(iteration)])
             sc = self.__dict__['_scripts'].get(str(self._pos(t)))
             try:
                 if sc:
@@ -89,6 +91,7 @@ def make_class(base, nvars, check, endo, extra=()):
 
         def solve_t_after(self, t, *, errors='raise', catch_first_error=True, iteration=None, **kwargs):
             self.__dict__['_evlog'].append(['after', int(t), int(iteration)])
+            self.__dict__.setdefault('_evpos', []).append(['after', int(self._pos(t)), int(iteration)])
             sc = self.__dict__['_scripts'].get(str(self._pos(t)))
             try:
                 if sc:
@@ -110,7 +113,8 @@ def instantiate(cls, span, vals, status, iters, scripts, lags=0, leads=0):
     m.__dict__['_status'][:] = status
     m.__dict__['_iterations'][:] = iters
     m.__dict__['_scripts'] = scripts
-    m.__dict__['_evlog'] = []
+    m.__dict__['_evlog'] = []          # (kind, t as the hook received it, iteration)
+    m.__dict__['_evpos'] = []          # (kind, POSITION of the period, iteration): independent of how t is spelled to the hooks
     m.__dict__['_passvecs'] = []
     m.__dict__['_raised'] = []
     m.__dict__['_blocked'] = []
